@@ -221,6 +221,7 @@ func RunProperty(id, tier string) int {
 		}
 		r.fn = fn
 		g0 := time.Now()
+		unitStarted.Store(g0.UnixNano())
 		func() {
 			defer func() {
 				if rec := recover(); rec != nil {
@@ -245,6 +246,7 @@ func RunProperty(id, tier string) int {
 			}
 		}()
 		r.genSecs = time.Since(g0).Seconds()
+		unitStarted.Store(0)
 		if r.err == nil {
 			udir := filepath.Join(work, sanitize(us.Func))
 			os.MkdirAll(udir, 0o755)
